@@ -292,10 +292,40 @@ func genDR(r *wire.Rng, nss, hosts []string, i int) drSpec {
 	}
 	// one subset named after the rule, sometimes a name shared with other rules (duplicate subsets
 	// are dropped when rules are consolidated)
-	d.subsets = []string{"s-" + d.name}
+	d.subsets = []subsetSpec{{name: "s-" + d.name}}
 	if r.Chance(1, 4) {
-		d.subsets = append(d.subsets, "shared")
+		d.subsets = append(d.subsets, subsetSpec{name: "shared"})
 	}
+	return d
+}
+
+// decorate gives the k-th rule of a case a traffic policy whose values identify the rule: maxConnections
+// 1000+k at destination level, 2000+k on one port, 3000+k in its own subset; some rules have no policy, some
+// only a load balancer (a gap a backend policy may fill), some are backend-policy rules.
+func decorate(r *wire.Rng, d drSpec, k int) drSpec {
+	if r.Chance(2, 3) {
+		d.subsets[0].pool = 3000 + k
+	}
+	switch r.Intn(6) {
+	case 0: // no trafficPolicy
+	case 1: // load balancer only
+		d.tp = &tpSpec{lb: wire.Pick(r, []int{2, 4, 5})}
+	default:
+		d.tp = &tpSpec{pool: 1000 + k}
+		if r.Chance(1, 3) {
+			d.tp.lb = wire.Pick(r, []int{2, 4, 5})
+		}
+	}
+	if d.tp != nil && r.Chance(1, 3) {
+		d.tp.plPort = wire.Pick(r, []int{80, 81, 9090})
+		if r.Chance(3, 4) {
+			d.tp.plPool = 2000 + k
+		}
+		if r.Chance(1, 3) {
+			d.tp.plLB = wire.Pick(r, []int{2, 4, 5})
+		}
+	}
+	d.backend = r.Chance(1, 6)
 	return d
 }
 
@@ -394,7 +424,11 @@ func genScope(seed uint64, ncases int, out string) {
 			o.Line(s.line()...)
 		}
 		var gwBound []vsSpec
-		for i, n := 0, r.Intn(5); i < n; i++ {
+		var allVS []vsSpec
+		var allDR []drSpec
+		var allSC []sidecarSpec
+		nVS := r.Intn(5)
+		for i, n := 0, nVS; i < n; i++ {
 			v := genVS(r, nss, hosts, i)
 			// a delegate VirtualService (no hosts, own exportTo) and a delegating route in the root
 			if !v.gwSem && r.Chance(1, 4) {
@@ -406,7 +440,9 @@ func genScope(seed uint64, ncases int, out string) {
 				}
 				v.http = append(v.http, httpSpec{delegate: &[2]string{dns, dg.name}})
 				o.Line(dg.line()...)
+				allVS = append(allVS, dg)
 			}
+			allVS = append(allVS, v)
 			for _, g := range v.gateways {
 				if g != "mesh" {
 					gwBound = append(gwBound, v)
@@ -415,22 +451,27 @@ func genScope(seed uint64, ncases int, out string) {
 			o.Line(v.line()...)
 		}
 		for i, n := 0, r.Intn(5); i < n; i++ {
-			d := genDR(r, nss, hosts, i)
+			d := decorate(r, genDR(r, nss, hosts, i), 2*i)
 			o.Line(d.line()...)
+			allDR = append(allDR, d)
 			// a sibling rule for the same host in the same namespace with its own exportTo
 			// (consolidation of rules with different export sets)
 			if r.Chance(1, 3) {
 				sib := genDR(r, nss, hosts, i)
 				sib.name, sib.ns, sib.host = d.name+"b", d.ns, d.host
-				sib.subsets = []string{"s-" + sib.name}
+				sib.subsets = []subsetSpec{{name: "s-" + sib.name}}
 				if r.Chance(1, 2) {
 					sib.selector = nil
 				}
+				sib = decorate(r, sib, 2*i+1)
 				o.Line(sib.line()...)
+				allDR = append(allDR, sib)
 			}
 		}
 		for i, n := 0, r.Intn(4); i < n; i++ {
-			o.Line(genSidecar(r, nss, hosts, i, m.root).line()...)
+			sc := genSidecar(r, nss, hosts, i, m.root)
+			o.Line(sc.line()...)
+			allSC = append(allSC, sc)
 		}
 		o.Line("build")
 		// a gateway asked before any sidecar of its namespace gets DefaultSidecarScopeForGateway,
@@ -463,5 +504,82 @@ func genScope(seed uint64, ncases int, out string) {
 		o.Line("xds", wire.Enc(xns), lbl)
 		o.Line("eds", wire.Enc(xns), lbl)
 		o.Line("xdsgw", wire.Enc(wire.Pick(r, nss)))
+		// incremental pushes: one object changes, the next PushContext is derived from the current one
+		// (updateContext) and must answer like a fresh one
+		for k := r.Intn(3); k > 0; k-- {
+			switch r.Intn(8) {
+			case 0, 1, 2: // a DestinationRule changes, appears or disappears
+				switch {
+				case len(allDR) > 0 && r.Chance(1, 4):
+					d := wire.Pick(r, allDR)
+					o.Line("delete", "dr", wire.Enc(d.name), wire.Enc(d.ns))
+				case len(allDR) > 0 && r.Chance(2, 3):
+					old := wire.Pick(r, allDR)
+					d := decorate(r, genDR(r, nss, hosts, 7), 40+k)
+					d.name, d.ns = old.name, old.ns
+					if r.Chance(1, 2) {
+						d.host = old.host
+					}
+					d.subsets[0].name = "s-" + d.name
+					o.Line(append([]string{"update"}, d.line()...)...)
+				default:
+					d := decorate(r, genDR(r, nss, hosts, 20+k), 50+k)
+					o.Line(append([]string{"update"}, d.line()...)...)
+					allDR = append(allDR, d)
+				}
+			case 3, 4: // a Sidecar
+				switch {
+				case len(allSC) > 0 && r.Chance(1, 4):
+					sc := wire.Pick(r, allSC)
+					o.Line("delete", "sc", wire.Enc(sc.name), wire.Enc(sc.ns))
+				case len(allSC) > 0 && r.Chance(2, 3):
+					old := wire.Pick(r, allSC)
+					sc := genSidecar(r, nss, hosts, 7, m.root)
+					sc.name, sc.ns = old.name, old.ns
+					o.Line(append([]string{"update"}, sc.line()...)...)
+				default:
+					sc := genSidecar(r, nss, hosts, 20+k, m.root)
+					o.Line(append([]string{"update"}, sc.line()...)...)
+					allSC = append(allSC, sc)
+				}
+			case 5: // a VirtualService (roots only; delegates stay)
+				var roots []vsSpec
+				for _, v := range allVS {
+					if len(v.hosts) > 0 {
+						roots = append(roots, v)
+					}
+				}
+				if len(roots) > 0 && r.Chance(1, 3) {
+					v := wire.Pick(r, roots)
+					o.Line("delete", "vs", wire.Enc(v.name), wire.Enc(v.ns))
+				} else if len(roots) > 0 {
+					old := wire.Pick(r, roots)
+					v := genVS(r, nss, hosts, 7)
+					v.name, v.ns = old.name, old.ns
+					o.Line(append([]string{"update"}, v.line()...)...)
+				} else {
+					v := genVS(r, nss, hosts, 20+k)
+					o.Line(append([]string{"update"}, v.line()...)...)
+					allVS = append(allVS, v)
+				}
+			default: // a service changes its exportTo / ports, or a new one appears
+				if r.Chance(2, 3) {
+					old := wire.Pick(r, svcs)
+					n := genSvcs(r, nss, hosts, 1, false, false)[0]
+					n.id, n.hostname, n.ns, n.name, n.k8s, n.externalName, n.res = old.id, old.hostname, old.ns, old.name, old.k8s, old.externalName, old.res
+					o.Line(append([]string{"update"}, n.line()...)...)
+				} else {
+					n := genSvcs(r, nss, hosts, 1, false, false)[0]
+					n.id, n.name = fmt.Sprintf("u%d", k), fmt.Sprintf("u%02d", k)
+					o.Line(append([]string{"update"}, n.line()...)...)
+				}
+			}
+			for _, ns := range nss[:2] {
+				o.Line("scope", wire.Enc(ns), "-")
+			}
+			o.Line("merged")
+			o.Line("xds", wire.Enc(xns), lbl)
+			o.Line("eds", wire.Enc(xns), lbl)
+		}
 	}
 }
